@@ -729,11 +729,14 @@ def run(ck):
     cases = corpus_cases()
     for i in range(n):
         cases.append(gen_case(ck.rng, MODES[i % len(MODES)]))
+    ck.log("proof stage done")
     hist, distinct, stats = run_equality(ck, cases)
+    ck.log("equality part done")
     ck.cov["mode_histogram"] = hist
     ck.cov["equality_stats"] = stats
 
     coll_distinct = run_collections(ck)
+    ck.log("collections part done")
     run_list_storage(ck)
 
     ck.cov["distinct_nontrivial"] = len([k for k in distinct if k[3]]) + coll_distinct
@@ -745,434 +748,17 @@ def run(ck):
 
 
 # =====================================================================================================
-# collections: operation sequences on lists, vectors, hash maps, hash sets, strings, byte vectors
+# collections: operation sequences and binary operations with ownership patterns -> checks/c11_coll.py
 # =====================================================================================================
-COLL_HEADER = ("From SV Require Import c11.Coll_C11.\nFrom Coq Require Import ZArith List String.\n"
-               "Import ListNotations.\nOpen Scope Z_scope.\n")
-KEYS = [("int", 0), ("int", 1), ("int", 2), ("int", -1), ("str", "a"), ("str", "ab"), ("str", ""),
-        ("list", ()), ("list", (1,)), ("list", (1, 2)), ("list", (2, 1))]
-ELTS = [0, 1, 2, 3, -1, 7, 9, 2**40]
-ERR_KIND = {"E:Index": "Generic", "E:Missing": "Generic", "E:Type": "TypeMismatch"}
-
-
-def key_steel(k):
-    if k[0] == "int":
-        return str(k[1])
-    if k[0] == "str":
-        return '"%s"' % k[1]
-    return "(list%s)" % "".join(" %d" % x for x in k[1])
-
-
-def key_coq(k):
-    if k[0] == "int":
-        return "KInt (%d)" % k[1]
-    if k[0] == "str":
-        return "KStr [%s]" % "; ".join("%d%%nat" % ord(c) for c in k[1])
-    return "KList [%s]" % "; ".join("(%d)" % x for x in k[1])
-
-
-def zs(xs):
-    return "[" + "; ".join("(%d)" % x for x in xs) + "]"
-
-
-def ns(xs):
-    return "[" + "; ".join("%d%%nat" % x for x in xs) + "]"
-
-
-def idx_steel(i):
-    return '"x"' if i is None else str(i)
-
-
-def idx_coq(i):
-    return "IBad" if i is None else "IZ (%d)" % i
-
-
-class Stop(Exception):
-    def __init__(self, cls, op):
-        self.cls, self.op = cls, op
-
-
-def ref_at(l, i, op, usize=False):
-    if i is None or (usize and i < 0):
-        raise Stop("E:Type", op)
-    if i < 0 or i >= len(l):
-        raise Stop("E:Index", op)
-    return l[i]
-
-
-def py_run(kind, init, ops):
-    """Oracle: the same sequence on python list / dict / set / str / bytes. Returns (string, failing op)."""
-    outs = []
-    if kind == "map":
-        c = {}
-        for k, v in init:
-            c[k] = v
-    elif kind == "set":
-        c = set(init)
-    else:
-        c = list(init)
-    try:
-        for o in ops:
-            n, a = o[0], o[1:]
-            if n == "cons":
-                c = [a[0]] + c
-            elif n in ("append", "strappend", "bytesappend"):
-                c = c + list(a[0])
-            elif n == "reverse":
-                c = c[::-1]
-            elif n == "take":
-                if a[0] is None:
-                    raise Stop("E:Type", n)
-                if a[0] < 0:
-                    raise Stop("E:Index", n)
-                c = c[:a[0]]
-            elif n == "drop":
-                if a[0] is None:
-                    raise Stop("E:Type", n)
-                if a[0] < 0:
-                    raise Stop("E:Index", n)
-                if a[0] > len(c):
-                    raise Stop("E:Index", "drop_beyond_end")
-                c = c[a[0]:]
-            elif n == "cdr":
-                if not c:
-                    raise Stop("E:Index", n)
-                c = c[1:]
-            elif n in ("length", "veclen", "strlen", "byteslen", "hlen", "slen"):
-                outs.append(str(len(c)))
-            elif n in ("listref", "vecref"):
-                outs.append(str(ref_at(c, a[0], n)))
-            elif n in ("strref", "bytesref"):
-                outs.append(str(ref_at(c, a[0], n, usize=True)))
-            elif n == "car":
-                if not c:
-                    raise Stop("E:Index", n)
-                outs.append(str(c[0]))
-            elif n == "last":
-                if not c:
-                    raise Stop("E:Index", n)
-                outs.append(str(c[-1]))
-            elif n == "vecset":
-                if kind == "ivec":
-                    raise Stop("E:Type", n)
-                ref_at(c, a[0], n, usize=True)      # vector-set! converts the index to usize first
-                c[a[0]] = a[1]
-            elif n == "bytesset":
-                ref_at(c, a[0], n, usize=True)
-                c[a[0]] = a[1]
-            elif n == "hinsert":
-                c[a[0]] = a[1]
-            elif n == "hremove":
-                c.pop(a[0], None)
-            elif n == "href":
-                if a[0] not in c:
-                    raise Stop("E:Missing", n)
-                outs.append(str(c[a[0]]))
-            elif n == "htryget":
-                outs.append(str(c[a[0]]) if a[0] in c else "#f")
-            elif n in ("hcontains", "scontains"):
-                outs.append("#t" if a[0] in c else "#f")
-            elif n == "sinsert":
-                c.add(a[0])
-            elif n == "substring":
-                i, j = a
-                if i < 0 or j < 0:
-                    raise Stop("E:Type", n)
-                if j < i or j > len(c):
-                    raise Stop("E:Index", n)
-                c = c[i:j]
-            elif n == "snap":
-                if kind in ("map", "set"):
-                    outs.append(str(len(c)))
-                else:
-                    outs.append("(" + " ".join(str(x) for x in c) + ")")
-            else:
-                raise ValueError(n)
-    except Stop as st:
-        return st.cls, st.op
-    return "(" + " ".join(outs) + ")", None
-
-
-def coll_steel(kind, init, ops):
-    if kind == "list":
-        c0 = "(list%s)" % "".join(" %d" % x for x in init)
-    elif kind == "mvec":
-        c0 = "(vector%s)" % "".join(" %d" % x for x in init)
-    elif kind == "ivec":
-        c0 = "(immutable-vector%s)" % "".join(" %d" % x for x in init)
-    elif kind == "map":
-        c0 = "(hash%s)" % "".join(" %s %d" % (key_steel(k), v) for k, v in init)
-    elif kind == "set":
-        c0 = "(hashset%s)" % "".join(" " + key_steel(k) for k in init)
-    elif kind == "string":
-        c0 = '"%s"' % "".join(chr(x) for x in init)
-    else:
-        c0 = "(bytes%s)" % "".join(" %d" % x for x in init)
-    b = ["(c %s)" % c0]
-    outs = []
-    for n_, o in enumerate(ops):
-        n, a = o[0], o[1:]
-        ov = "o%d" % n_
-
-        def out(e):
-            b.append("(%s %s)" % (ov, e))
-            outs.append(ov)
-        if n == "cons":
-            b.append("(c (cons %d c))" % a[0])
-        elif n == "append":
-            b.append("(c (append c (list%s)))" % "".join(" %d" % x for x in a[0]))
-        elif n == "reverse":
-            b.append("(c (reverse c))")
-        elif n == "take":
-            b.append("(c (take c %s))" % idx_steel(a[0]))
-        elif n == "drop":
-            b.append("(c (drop c %s))" % idx_steel(a[0]))
-        elif n == "cdr":
-            b.append("(c (cdr c))")
-        elif n == "length":
-            out("(length c)")
-        elif n == "listref":
-            out("(list-ref c %s)" % idx_steel(a[0]))
-        elif n == "car":
-            out("(car c)")
-        elif n == "last":
-            out("(last c)")
-        elif n == "vecref":
-            out("(vector-ref c %s)" % idx_steel(a[0]))
-        elif n == "vecset":
-            b.append("(u%d (vector-set! c %s %d))" % (n_, idx_steel(a[0]), a[1]))
-        elif n == "veclen":
-            out("(vector-length c)")
-        elif n == "hinsert":
-            b.append("(c (hash-insert c %s %d))" % (key_steel(a[0]), a[1]))
-        elif n == "hremove":
-            b.append("(c (hash-remove c %s))" % key_steel(a[0]))
-        elif n == "href":
-            out("(hash-ref c %s)" % key_steel(a[0]))
-        elif n == "htryget":
-            out("(hash-try-get c %s)" % key_steel(a[0]))
-        elif n == "hcontains":
-            out("(hash-contains? c %s)" % key_steel(a[0]))
-        elif n == "hlen":
-            out("(hash-length c)")
-        elif n == "sinsert":
-            b.append("(c (hashset-insert c %s))" % key_steel(a[0]))
-        elif n == "scontains":
-            out("(hashset-contains? c %s)" % key_steel(a[0]))
-        elif n == "slen":
-            out("(hashset-length c)")
-        elif n == "strappend":
-            b.append('(c (string-append c "%s"))' % "".join(chr(x) for x in a[0]))
-        elif n == "substring":
-            b.append("(c (substring c %d %d))" % a)
-        elif n == "strlen":
-            out("(string-length c)")
-        elif n == "strref":
-            out("(char->integer (string-ref c %s))" % idx_steel(a[0]))
-        elif n == "bytesref":
-            out("(bytes-ref c %s)" % idx_steel(a[0]))
-        elif n == "byteslen":
-            out("(bytes-length c)")
-        elif n == "bytesappend":
-            b.append("(c (bytes-append c (bytes%s)))" % "".join(" %d" % x for x in a[0]))
-        elif n == "bytesset":
-            b.append("(u%d (bytes-set! c %s %d))" % (n_, idx_steel(a[0]), a[1]))
-        elif n == "snap":
-            out({"list": "c", "mvec": "(vector->list c)", "ivec": "(vector->list c)", "map": "(hash-length c)",
-                 "set": "(hashset-length c)", "string": "(map char->integer (string->list c))",
-                 "bytes": "(bytes->list c)"}[kind])
-        else:
-            raise ValueError(n)
-    return "(let* (%s) (list%s))" % (" ".join(b), "".join(" " + o for o in outs))
-
-
-def coll_coq(kind, init, ops):
-    if kind == "list":
-        c0 = "CList %s" % zs(init)
-    elif kind == "mvec":
-        c0 = "CMVec %s" % zs(init)
-    elif kind == "ivec":
-        c0 = "CIVec %s" % zs(init)
-    elif kind == "map":
-        c0 = "CMap (map_of [%s])" % "; ".join("(%s, (%d))" % (key_coq(k), v) for k, v in init)
-    elif kind == "set":
-        c0 = "CSet (set_of [%s])" % "; ".join(key_coq(k) for k in init)
-    elif kind == "string":
-        c0 = "CString %s" % ns(init)
-    else:
-        c0 = "CBytes %s" % ns(init)
-    r = []
-    for o in ops:
-        n, a = o[0], o[1:]
-        r.append({
-            "cons": lambda: "OCons (%d)" % a[0], "append": lambda: "OAppend %s" % zs(a[0]),
-            "reverse": lambda: "OReverse", "take": lambda: "OTake (%s)" % idx_coq(a[0]),
-            "drop": lambda: "ODrop (%s)" % idx_coq(a[0]), "cdr": lambda: "OCdr", "length": lambda: "OLength",
-            "listref": lambda: "OListRef (%s)" % idx_coq(a[0]), "car": lambda: "OCar", "last": lambda: "OLast",
-            "vecref": lambda: "OVecRef (%s)" % idx_coq(a[0]),
-            "vecset": lambda: "OVecSet (%s) (%d)" % (idx_coq(a[0]), a[1]), "veclen": lambda: "OVecLen",
-            "hinsert": lambda: "OHInsert (%s) (%d)" % (key_coq(a[0]), a[1]),
-            "hremove": lambda: "OHRemove (%s)" % key_coq(a[0]), "href": lambda: "OHRef (%s)" % key_coq(a[0]),
-            "htryget": lambda: "OHTryGet (%s)" % key_coq(a[0]),
-            "hcontains": lambda: "OHContains (%s)" % key_coq(a[0]), "hlen": lambda: "OHLen",
-            "sinsert": lambda: "OSInsert (%s)" % key_coq(a[0]),
-            "scontains": lambda: "OSContains (%s)" % key_coq(a[0]), "slen": lambda: "OSLen",
-            "strappend": lambda: "OStrAppend %s" % ns(a[0]),
-            "substring": lambda: "OSubstring (%d) (%d)" % a, "strlen": lambda: "OStrLen",
-            "strref": lambda: "OStrRef (%s)" % idx_coq(a[0]), "bytesref": lambda: "OBytesRef (%s)" % idx_coq(a[0]),
-            "byteslen": lambda: "OBytesLen", "bytesappend": lambda: "OBytesAppend %s" % ns(a[0]),
-            "bytesset": lambda: "OBytesSet (%s) %d%%nat" % (idx_coq(a[0]), a[1]), "snap": lambda: "OSnap",
-        }[n]())
-    return "run_str (%s) [%s]" % (c0, "; ".join(r))
-
-
-def gen_coll(rng, with_drop_beyond=False):
-    kind = rng.choice(["list", "list", "mvec", "ivec", "map", "map", "set", "string", "bytes"])
-    size = rng.choice([0, 0, 1, 2, 3, 5, 9])      # > 4 elements: lists span several storage chunks
-    key = lambda: rng.choice(KEYS)
-    if kind in ("list", "mvec", "ivec"):
-        init = [rng.choice(ELTS) for _ in range(size)]
-    elif kind == "map":
-        init = [(key(), rng.choice(ELTS)) for _ in range(size)]          # duplicate keys on purpose
-    elif kind == "set":
-        init = [key() for _ in range(size)]
-    elif kind == "string":
-        init = [rng.choice([97, 98, 99, 122]) for _ in range(size)]
-    else:
-        init = [rng.choice([0, 1, 2, 255]) for _ in range(size)]
-    cur = len(init)         # rough size for choosing boundary indices
-
-    def index():
-        r = rng.random()
-        if r < 0.05:
-            return None
-        return rng.choice([0, 0, 1, cur - 1, cur, cur + 1, -1, max(cur // 2, 0)])
-    ops = []
-    for _ in range(rng.choice([1, 2, 3, 4, 6, 8])):
-        if kind == "list":
-            o = rng.choice(["cons", "append", "reverse", "take", "drop", "cdr", "length", "listref", "car", "last", "snap"])
-            if o == "cons":
-                ops.append((o, rng.choice(ELTS)))
-            elif o == "append":
-                ops.append((o, tuple(rng.choice(ELTS) for _ in range(rng.choice([0, 1, 2, 6])))))
-            elif o in ("take", "listref"):
-                ops.append((o, index()))
-            elif o == "drop":
-                i = index()
-                if i is None:
-                    i = 0                 # (drop l "x") aborts under the JIT as well (F21 family): not generated
-                if i > 0 and not with_drop_beyond:
-                    i = min(i, 0)         # keep clear of the drop-beyond-the-end abort unless asked for
-                ops.append((o, i))
-            else:
-                ops.append((o,))
-        elif kind in ("mvec", "ivec"):
-            o = rng.choice(["vecref", "vecset", "veclen", "snap", "vecref"])
-            ops.append((o, index(), rng.choice(ELTS)) if o == "vecset" else ((o, index()) if o == "vecref" else (o,)))
-        elif kind == "map":
-            o = rng.choice(["hinsert", "hinsert", "hremove", "href", "htryget", "hcontains", "hlen", "snap"])
-            ops.append((o, key(), rng.choice(ELTS)) if o == "hinsert" else ((o,) if o in ("hlen", "snap") else (o, key())))
-        elif kind == "set":
-            o = rng.choice(["sinsert", "sinsert", "scontains", "slen", "snap"])
-            ops.append((o,) if o in ("slen", "snap") else (o, key()))
-        elif kind == "string":
-            o = rng.choice(["strappend", "substring", "strlen", "strref", "snap"])
-            if o == "strappend":
-                ops.append((o, tuple(rng.choice([97, 98, 120]) for _ in range(rng.choice([0, 1, 3])))))
-            elif o == "substring":
-                i, j = index(), index()
-                # negative bounds are outside the envelope: the engine reports them through three
-                # different error kinds depending on which bound and on the string
-                ops.append((o, 0 if i is None else max(i, 0), cur if j is None else max(j, 0)))
-            elif o == "strref":
-                ops.append((o, index()))
-            else:
-                ops.append((o,))
-        else:
-            o = rng.choice(["bytesref", "byteslen", "bytesappend", "bytesset", "snap"])
-            if o == "bytesappend":
-                ops.append((o, tuple(rng.choice([0, 7, 255]) for _ in range(rng.choice([0, 1, 3])))))
-            elif o == "bytesset":
-                ops.append((o, index(), rng.choice([0, 9, 255])))
-            elif o == "bytesref":
-                ops.append((o, index()))
-            else:
-                ops.append((o,))
-    ops.append(("snap",))
-    if kind == "map":
-        ops.extend(("htryget", k) for k in KEYS)
-    if kind == "set":
-        ops.extend(("scontains", k) for k in KEYS)
-    return kind, init, ops
-
-
-COLL_CORPUS = [
-    ("bytes", [1, 2, 3], [("bytesset", 3, 9), ("snap",)]),                 # was a Rust panic (fixed)
-    ("list", list(range(10)), [("append", (1,)), ("take", 10), ("snap",)]),
-    ("map", [(("int", 1), 2), (("int", 1), 3)], [("hlen",), ("href", ("int", 1)), ("snap",)]),
-    ("map", [(("list", (1, 2)), 5)], [("href", ("list", (1, 2))), ("href", ("list", (2, 1))), ("snap",)]),
-    ("list", [1, 2, 3], [("drop", 5), ("snap",)]),                         # known finding: abort under the JIT
-]
+from checks import c11_coll
 
 
 def c11_drop_beyond_end(case, params):
     return case.get("failing_op") == "drop_beyond_end"
 
 
-def strip_int_tags(v):
-    import re
-    return re.sub(r"(?<![\w\"])I(-?\d+)", r"\1", v)
-
-
 def run_collections(ck):
-    import re
-    n = 700 if ck.tier == "quick" else 15000
-    cases = list(COLL_CORPUS)
-    for i in range(n):
-        cases.append(gen_coll(ck.rng, with_drop_beyond=(i % 97 == 0)))
-    # cases that would abort the worker run in their own batch positions; eval_cases restarts workers
-    impl = ck.eval_cases([[coll_steel(*c)] for c in cases], batch=60)
-    model = ck.coq_eval(COLL_HEADER, [coll_coq(*c) for c in cases], shard=max(20, len(cases) // 16 + 1))
-    distinct = set()
-    stats = {"cases": len(cases), "engine_vs_oracle": 0, "model_vs_engine": 0, "errors": 0, "ok": 0}
-    for ci, (kind, init, ops) in enumerate(cases):
-        want, failing_op = py_run(kind, init, ops)
-        r = impl[ci][0] if impl[ci] else {}
-        if "ok" in r:
-            got = strip_int_tags(r["ok"][-1]) if r["ok"] else "?"
-            got_cmp = got
-        elif "err" in r:
-            got = "E:" + r["err"]
-            got_cmp = got
-        elif "crash" in r:
-            got = got_cmp = "CRASH:%s" % r["crash"]
-        elif "hang" in r:
-            got = got_cmp = "HANG"
-        else:
-            got = got_cmp = "P:" + r.get("panic", "?")
-        want_cmp = ("E:" + ERR_KIND[want]) if want.startswith("E:") else want
-        mod = model[ci]
-        mod_cmp = ("E:" + ERR_KIND[mod]) if mod.startswith("E:") else mod
-        ck.cov["evaluations"] += 1
-        stats["errors" if want.startswith("E:") else "ok"] += 1
-        for o in ops:
-            distinct.add((kind, o[0], want if want.startswith("E:") else "ok"))
-        descr = {"kind": kind, "init": init, "ops": [list(o) for o in ops], "source": coll_steel(kind, init, ops),
-                 "coq": coll_coq(kind, init, ops), "engine": got, "oracle": want, "model": mod,
-                 "failing_op": failing_op, "part": "collections"}
-        if ci % 83 == 0:
-            ck.sample(descr, cap=10)
-        if got_cmp != want_cmp:
-            stats["engine_vs_oracle"] += 1
-            ck.failing_input("collection sequence on %s: engine %s, mathematical %s" % (kind, got, want), descr, tag="coll")
-        elif mod_cmp != got_cmp or (want.startswith("E:") and mod != want):
-            stats["model_vs_engine"] += 1
-            ck.violation("collection model/implementation correspondence broken on %s: model %s, engine %s, oracle %s"
-                         % (kind, mod, got, want), {"case": descr, "correspondence": "c11.Coll_C11 step vs primitives/*.rs"},
-                         no_input=True, tag="collcorr")
-    ck.cov["collection_stats"] = stats
-    ck.cov["collection_triples"] = sorted("%s/%s/%s" % t for t in distinct)
-    return len(distinct)
+    return c11_coll.run_collections(ck)
 
 
 # =====================================================================================================
